@@ -93,3 +93,31 @@ Section Examples.
 End Examples.
 
 Print Assumptions C08_bookkeeping_monitor_accepts_every_model_trace.
+
+(* ---- never a mixture of two commits (Model/Monitors8m.v step8m) ----
+   A check may store and commit the bookkeeping keys before it is finished (a changed poll interval is persisted at
+   once).  step8m rejects, while a check is under way, any write to the last-contact-time key or the failure-count key
+   that is not the value the machine last announced (schedule / protocol-state event): a crash after such a commit then
+   leaves a state that was announced - the last finished check's or ping's - never values of the running check. *)
+Require Import Verif.Model.Monitors8m Verif.Proofs.C08mProof.
+Theorem C08_a_running_check_writes_only_what_was_announced :
+  forall ep cfg url cup apps e, e_trace e = [] ->
+    accepts step8m init8m (run_case ep cfg url cup apps e) = true.
+Proof. exact model_accepted_c08m. Qed.
+Section Examples8m.
+  Let sc (t : option pct) : sched := {| s_last_update := t; s_last_check := None; s_next := None |}.
+  Let ps (f : Z) : Env.pstate := {| ps_poll := None; ps_fails := f; ps_proxied := 0 |}.
+  Let chk := AEvent (EvState (CheckingForUpdates ScheduledTask)).
+  Example C08_mixture_monitor :
+    (* the running check stores a last-contact time it has not announced; a failure count it has not announced *)
+    accepts step8m init8m [AEvent (EvSchedule (sc (Some (PWall 1000000)))); chk; AStore (SSetInt K_LAST_UPDATE_TIME 2000) true] = false
+    /\ accepts step8m init8m [AEvent (EvProtocol (ps 2)); chk; AStore (SRemove K_FAILED_CHECKS) true] = false
+    (* it stores what was announced *)
+    /\ accepts step8m init8m [AEvent (EvSchedule (sc (Some (PWall 1000000)))); AEvent (EvProtocol (ps 2)); chk;
+                               AStore (SSetInt K_LAST_UPDATE_TIME 1000) true; AStore (SSetInt K_FAILED_CHECKS 2) true; AStore SCommit true] = true
+    (* after the result the new values are written (they were announced just before) *)
+    /\ accepts step8m init8m [chk; AEvent (EvSchedule (sc (Some (PWall 5000000)))); AEvent (EvProtocol (ps 0)); AEvent (EvResult (inl CEResponseParser));
+                               AStore (SSetInt K_LAST_UPDATE_TIME 5000) true; AStore (SRemove K_FAILED_CHECKS) true] = true.
+  Proof. vm_compute. repeat split. Qed.
+End Examples8m.
+Print Assumptions C08_a_running_check_writes_only_what_was_announced.
